@@ -1,23 +1,32 @@
 /- Driver handlers for the middle product (property C01, part c01_mulmid): the limb-level models of Mpir/Model/MulMid.lean with
-   MULMID_TOOM42_THRESHOLD of the tree under check; every output limb is compared.  mpn_toom42_mulmid enters by its
-   specification (`tmSpec`). -/
+   MULMID_TOOM42_THRESHOLD of the tree under check; every output limb is compared.  mpn_toom42_mulmid is the limb-level model
+   of Mpir/Model/MulMidToom.lean (op mm_toom42 ties it directly). -/
 import Mpir.Proto
 import Mpir.Model.MulMid
+import Mpir.Model.MulMidToom
 import Mpir.Gen.Params
 namespace Mpir.Ops.MulMid
 open Mpir Mpir.MulMid
 
 def T : Nat := Mpir.Gen.params.MULMID_TOOM42_THRESHOLD.toNat
 
+/-- mpn_toom42_mulmid as modelled (Mpir/Model/MulMidToom.lean), in the shape `mulmid_n` / `mulmid` take their callee -/
+def tmModel (a b : List Nat) (n : Nat) : List Nat := toom42 T n a b n
+
 def handle : Handler
   | "mm_basecase", [.vec a, .vec b] =>
       if b.length ≥ 1 && a.length ≥ b.length then some [.vec (mulmid_basecase a a.length b)] else none
   | "mm_mulmid_n", [.vec a, .vec b] =>
-      if b.length ≥ 1 && a.length == 2 * b.length - 1 then some [.vec (mulmid_n T tmSpec a b b.length)] else none
+      if b.length ≥ 1 && a.length == 2 * b.length - 1 then some [.vec (mulmid_n T tmModel a b b.length)] else none
   | "mm_mulmid", [.vec a, .vec b] =>
       if b.length ≥ 1 && a.length ≥ b.length then
-        let r := mulmid T tmSpec a.length a a.length b
+        let r := mulmid T tmModel a.length a a.length b
         if r.length == a.length - b.length + 3 then some [.vec r] else some [.err "model"]
+      else none
+  | "mm_toom42", [.vec a, .vec b] =>
+      if b.length ≥ 4 && a.length == 2 * b.length - 1 then
+        let r := toom42 T b.length a b b.length
+        if r.length == b.length + 2 then some [.vec r] else some [.err "model"]
       else none
   | _, _ => none
 
